@@ -25,7 +25,8 @@ RSPHEAD = b"HTTP/1.1 200 OK\r\nTransfer-Encoding: chunked\r\n\r\n"
 def RULE(tier):
     q = tier == "quick"
     return ("(a) every body of length 0..%d over 4 byte values x every composition into chunks x 4 extension forms x 3 trailer sets, "
-            "encoded by a reference encoder (and by httping.packChunk when no extension), decoded by the real Requestant and Respondent: "
+            "encoded by a reference encoder (and by httping.packChunk when no extension), decoded by the real Requestant and Respondent "
+            "fed in one piece and byte by byte: "
             "body, trailers and extension parms must come back exactly; (b) every chunk-size string of length <= %d over %d characters "
             "(hex digits, sign, x, underscore, blank, tab, g): plain hex must decode to that size, non-hex must be an error."
             % (4 if q else 6, 3 if q else 4, len(SIZECHARS)))
@@ -102,9 +103,13 @@ def check_body(body, comp, ei, ti, use_pack):
             v.append(("packChunk-differs", "packChunk gives %r, reference %r" % (enc, encode(body, comp, b"", trailers))))
     else:
         enc = encode(body, comp, ext, trailers)
+    feeds = []
     for kind, head in (("req", REQHEAD), ("rsp", RSPHEAD)):
-        res, left, exc = httpgen.drive(kind, (head + enc,))
-        tag = "%s:%s%s" % (kind, "ext" if ext and not use_pack else "noext", ":trailers" if trailers else "")
+        feeds.append((kind, (head + enc,), ""))
+        feeds.append((kind, (head,) + httpgen.bytewise(enc), ":bytewise"))
+    for kind, frags, how in feeds:
+        res, left, exc = httpgen.drive(kind, frags)
+        tag = "%s:%s%s%s" % (kind, "ext" if ext and not use_pack else "noext", ":trailers" if trailers else "", how)
         if exc:
             v.append(("decode-raises:%s:%s" % (exc[0], tag), "chunked %r raised %r" % (enc, exc)))
             continue
